@@ -2,7 +2,7 @@
    models). Statements closed by [exact] and their assumptions; examples showing the hypotheses are
    satisfiable; the refuted full statement next to its exact partial version. *)
 From Coq Require Import List Arith Bool Lia.
-Require Import XV.GenCont XV.ContVecDefs XV.ContVecModel XV.ContMapDefs XV.ContMapModel.
+Require Import XV.GenCont XV.ContVecDefs XV.ContVecModel XV.ContMapDefs XV.ContMapModel XV.ContStrDefs XV.ContStrModel XV.ContDeqDefs XV.ContDeqModel.
 Import ListNotations.
 
 (* ---- XalanVector ------------------------------------------------------------------------------ *)
@@ -112,3 +112,98 @@ Example map_compaction_and_rehash :
       (run [MIns 1 1; MIns 2 1; MIns 3 1; MIns 4 1; MIns 5 1; MIns 6 1; MIns 7 1]) = [3; 3; 3; 3; 3; 3; 9].
 Proof. vm_compute. repeat split. Qed.
 Print Assumptions map_compaction_and_rehash.
+
+(* ---- XalanDOMString --------------------------------------------------------------------------- *)
+(* Every finite op sequence over two strings (append x3, push_back, insert x3, erase x4, resize,
+   reserve, clear, assign x2, substr, assign from own substring, append of a substring / of the other
+   string, compare x2, operator[], c_str, reverse iteration, copy construction, operator=,
+   self-assignment, swap): whenever the model performs an op (i.e. inside the C++ precondition, no NUL
+   argument, outside the two known-finding guards of [ststep]) the std::u16string specification
+   returns the same value, the code units and length() agree afterwards and c_str()[length()] is
+   NUL. *)
+Theorem string_refines_u16 : forall ops, st_refines stinit uinit ops.
+Proof. intros. apply string_refines_u16_lemma. unfold strel. simpl. split; [apply ok_sempty | split; [apply ok_sempty | reflexivity]]. Qed.
+Print Assumptions string_refines_u16.
+
+(* the NUL-terminator invariant: after any op sequence the buffer is completely empty, or it is the
+   code units followed by exactly one NUL, with no NUL among the units, m_size = their number, and
+   the vector's allocation covers the buffer *)
+Theorem string_nul_inv : forall ops,
+  nul_inv (sreg0 (stfinal stinit ops)) /\ nul_inv (sreg1 (stfinal stinit ops)).
+Proof. exact string_nul_inv_lemma. Qed.
+Print Assumptions string_nul_inv.
+
+Example string_ops_are_performed :
+  strun stinit [SApp [97; 98; 99]; SIns 1 [120; 121]; SErase 0 2; SResize0 2; SEraseNpos 1; SClear; SResize 2 122]
+  = [Some (SRNone, 3, [97; 98; 99], true, 3); Some (SRNone, 5, [97; 120; 121; 98; 99], true, 5);
+     Some (SRNone, 3, [121; 98; 99], true, 5); Some (SRNone, 2, [121; 98], true, 5);
+     Some (SRNone, 1, [121], true, 5); Some (SRNone, 0, [], true, 5); Some (SRNone, 2, [122; 122], true, 5)].
+Proof. vm_compute. reflexivity. Qed.
+Print Assumptions string_ops_are_performed.
+
+(* FULL statement for resize(n, c), c <> 0: the result is the first n units padded with c.
+   FALSE of the faithful model (and of the library): when the buffer already holds its terminator the
+   old NUL stays in place.  Witness: "abc".resize(6, 'x') = "abc\0xx". *)
+Definition string_resize_statement : Prop :=
+  forall s cs n c, str_ok s cs -> c <> 0 -> chars (sresize s n c) = resize_spec n c cs.
+
+Theorem string_resize_refuted : ~ string_resize_statement.
+Proof.
+  intros H.
+  assert (K : str_ok (append_w sempty [97; 98; 99]) ([] ++ [97; 98; 99])).
+  { apply append_w_ok; [apply ok_sempty|]. repeat constructor; discriminate. }
+  specialize (H _ _ 6 120 K ltac:(discriminate)). vm_compute in H. discriminate H.
+Qed.
+Print Assumptions string_resize_refuted.
+
+(* exact guard: not growing, or the buffer is completely empty *)
+Theorem string_resize_partial : forall s cs n c, str_ok s cs ->
+  (n <= length cs \/ (buf_empty s = true /\ c <> 0)) ->
+  str_ok (sresize s n c) (resize_spec n c cs).
+Proof. exact sresize_ok. Qed.
+Print Assumptions string_resize_partial.
+
+(* ---- XalanDeque ------------------------------------------------------------------------------- *)
+(* Two deques of the SAME block size bs >= 1, every finite op sequence without operator[] writes
+   (push_back, pop_back, back, operator[] read, resize, clear, forward / reverse iteration, copy
+   construction, operator=, self-assignment, swap, re-construction with an initial size): return
+   values, size(), empty() and the element sequence seen through operator[] equal the list
+   specification (std::deque).  Rests on the block invariant: all blocks but the last are full, no
+   indexed block is empty, free blocks are empty. *)
+Theorem deque_refines_list : forall bs ops, 1 <= bs -> forallb dop_ok ops = true ->
+  drun (mkds (new_deq bs) (new_deq bs) false) ops = dlrun linit ops.
+Proof.
+  intros. apply deque_refines_list_lemma; [unfold drel; simpl; auto | | assumption].
+  split; [apply new_deq_ok; assumption | split; [apply new_deq_ok; assumption | reflexivity]].
+Qed.
+Print Assumptions deque_refines_list.
+
+(* size() = (blocks - 1) * blockSize + last block's size, and operator[] through index / blockSize
+   and index % blockSize, are right exactly because of the block invariant *)
+Theorem deque_size_and_index : forall d, dinv d ->
+  dsize d = length (flat d) /\ (forall i, i < length (flat d) -> dindex d i = nth i (flat d) 0).
+Proof. intros d I. split; [apply dsize_flat; assumption | intros; apply dindex_flat; assumption]. Qed.
+Print Assumptions deque_size_and_index.
+
+Example deque_block_recycling :
+  drun (mkds (new_deq 2) (new_deq 2) false) [DPush 1; DPush 2; DPush 3; DPop; DPop; DPush 4; DPush 5; DResize 1; DBack]
+  = [Some (RNone, 1, false, [1]); Some (RNone, 2, false, [1; 2]); Some (RNone, 3, false, [1; 2; 3]);
+     Some (RNone, 2, false, [1; 2]); Some (RNone, 1, false, [1]); Some (RNone, 2, false, [1; 4]);
+     Some (RNone, 3, false, [1; 4; 5]); Some (RNone, 1, false, [1]); Some (RNum 1, 1, false, [1])].
+Proof. vm_compute. reflexivity. Qed.
+Print Assumptions deque_block_recycling.
+
+(* FULL statement (any two block sizes).  FALSE of the faithful model (and of the library): swap
+   exchanges the block vectors but not the const m_blockSize.  Witness: 12 elements in a deque of
+   block size 10 swapped into one of block size 3: size() = 5. *)
+Definition deque_any_block_sizes_statement : Prop :=
+  forall bs0 bs1 ops, 1 <= bs0 -> 1 <= bs1 -> forallb dop_ok ops = true ->
+    drun (mkds (new_deq bs0) (new_deq bs1) false) ops = dlrun linit ops.
+
+Theorem deque_swap_refuted : ~ deque_any_block_sizes_statement.
+Proof.
+  intros H.
+  specialize (H 10 3 (map DPush [1;2;3;4;5;6;7;8;9;10;11;12] ++ [DSwap; DSel true]) ltac:(lia) ltac:(lia) eq_refl).
+  vm_compute in H. discriminate H.
+Qed.
+Print Assumptions deque_swap_refuted.
